@@ -324,7 +324,7 @@ func (g G) planC15() *Plan {
 		world: worldOpts{maxSPs: 4, maxUsers: 4, maxReplicas: 1, hardPct: 5, hardURLPct: 15, customAttrs: true, issuerVariety: true, endpointVariety: true, metaVariety: true, acsSupportedVariety: true,
 			sloVariety: true, parkVariety: true},
 		wSSO: 16, wCallback: 18, wSLO: 8, wAttrQ: 10, wMeta: 8, wCert: 3, wReady: 1, wHealthz: 1,
-		wResume: 50, wFinish: 4, wComplete: 8, wPair: 12, wRotate: 1, wAdvance: 1,
+		wResume: 50, wFinish: 4, wComplete: 8, wPair: 12, wRotate: 1, wAdvance: 1, wRandFail: 1,
 		devPct: 8, faultPcts: []int{0, 0, 0, 10}, hostVariety: true, wRereg: 2, bodyFaultPct: 6,
 		minSteps: 8, maxSteps: 50, maxPre: 5, raceBias: true}
 	p := g.planMix("C15", o)
